@@ -23,6 +23,11 @@ run() { # id prop patch expect(caught|missed|quiet) only
   [ -n "$only" ] && args+=(-only "$only")
   local n; n=$(bin/govc check "${args[@]}" 2>&1 | grep -c '^VIOLATION')
   local got=quiet; [ "$n" -gt 0 ] && got=caught
+  if [ -n "$only" ] && [ "$expect" = caught ] && [ $got = quiet ]; then
+    # the restricted run saw nothing: the catching contract may live in another package
+    n=$(bin/govc check -repo "$wt" -prop "$prop" -no-evidence 2>&1 | grep -c '^VIOLATION')
+    [ "$n" -gt 0 ] && got=caught
+  fi
   local verdict=ok
   case "$expect" in
     caught) [ $got = caught ] || { verdict=REGRESSION; fail=1; } ;;
@@ -37,13 +42,16 @@ for d in seeded/C*; do
   if [ ${#ids[@]} -gt 0 ] && [[ ! " ${ids[*]} " =~ " $id " ]]; then continue; fi
   prop=${id%%-*}
   expect=caught; grep -qx "$id" seeded/EXPECTED_MISSED 2>/dev/null && expect=missed
+  # restrict the run to the packages the patch touches (full property as a fallback inside run)
   only=$(python3 - "$d" <<'P'
-import json,sys,re,os
-try: m=json.load(open(sys.argv[1]+'/meta.json'))
-except Exception: m={}
-cb=m.get('caught_by') or ''
-f=cb.split('/')[0].strip()
-print(re.escape(f.split('#')[0]) if f and ' ' not in f else '')
+import sys,re,os
+names=set()
+for line in open(sys.argv[1]+'/patch.diff'):
+    m=re.match(r'\+\+\+ b/(.*)', line)
+    if m:
+        d=os.path.dirname(m.group(1))
+        names.add(os.path.basename(d) if d else 'wazero')
+print('\\b('+'|'.join(sorted(names))+')\\b' if names else '')
 P
 )
   run "$id" "$prop" "/verif/$d/patch.diff" "$expect" "$only"
